@@ -11,6 +11,10 @@ type Tag struct { //nolint:govet
 	Name              TagName
 	Title             string
 	Description       *string
+
+	// automatic is true for a tag created from the path of an interaction,
+	// i.e. not declared by a TAG directive.
+	automatic bool
 }
 
 var _ json.Marshaler = &Tags{}
@@ -31,6 +35,7 @@ func newPathTag(r InteractionID) *Tag {
 		Children:          &Tags{},
 		Title:             title,
 		Name:              tagName(title),
+		automatic:         true,
 	}
 }
 
